@@ -256,6 +256,14 @@ func (evkg EvaluationKeyGenProtocol) GenEvaluationKey(share EvaluationKeyGenShar
 		return fmt.Errorf("cannot GenEvaluationKey: share LevelP != evk LevelP")
 	}
 
+	if share.BaseTwoDecomposition != evk.BaseTwoDecomposition {
+		return fmt.Errorf("cannot GenEvaluationKey: share BaseTwoDecomposition != evk BaseTwoDecomposition")
+	}
+
+	if evk.Degree() != 1 {
+		return fmt.Errorf("cannot GenEvaluationKey: evk degree is %d but must be 1 (compressed keys are not supported)", evk.Degree())
+	}
+
 	m := share.Value
 	p := crp.Value
 
